@@ -30,6 +30,8 @@ SPEC['explanation'] += ' T9.norm also covers every return path that does not han
 SPEC['decided'] += ['all non-absolute results normalised']
 SPEC['explanation'] += ' T20.nocache: the functions that build a fresh list / dict / generator per call are not memoised.'
 SPEC['decided'] += ['results are fresh per call (no memoising decorator)']
+SPEC['explanation'] += " T9.trail: after a trailing dot segment resolve_path_parts appends the empty final segment on every path."
+SPEC['decided'] += ['trailing slash after a final dot segment']
 MANIFEST = {
     'technique': 'effect (write-set) analysis, must-pass-through on CFG paths, control-dependence of loads, guard predicate folded over a finite abstract domain of list shapes',
     'text': ('Decides necessary structural clauses of C07: navigate is a pure function of the base, always normalises, removes dot '
@@ -197,6 +199,26 @@ def run(ctx):
     # resolve_path_parts
     rp = prog.func('urlutils.resolve_path_parts')
     w, paths = paths_of(prog, rp)
+    # T9.trail: a path ending in a dot segment names a directory: once the function established that the last input segment is
+    # '.' or '..', every path appends the empty final segment (RFC 3986 5.2.4 keeps the trailing slash whatever came before)
+    bad_t = None
+    n_t = 0
+    for p in paths:
+        if p.kind != 'return':
+            continue
+        for t, truth, o in tests_on(w, p):
+            src = txt(o.node) if isinstance(o.node, ast.AST) else t       # (list displays are tokens in the expanded text)
+            tt = src.replace(' ', '')
+            if 'path_parts[-1:]' in tt and "'.'" in tt and "'..'" in tt and ' in ' in src and ' not in ' not in src and truth:
+                n_t += 1
+                later = [x for x in p.ops if x.seq > o.seq and x.kind == 'call' and isinstance(x.val.func, ast.Attribute) and
+                         x.val.func.attr == 'append' and x.val.args and isinstance(x.val.args[0], ast.Constant) and x.val.args[0].value == '']
+                rv = txt(w.expand(p.outcome[1])) if p.outcome[1] is not None else ''
+                if not later and not rv.replace(' ', '').endswith("+['']") and bad_t is None:
+                    bad_t = p
+    if n_t:
+        ctx.ob('T9.trail', rp.fq, "after a trailing '.' / '..' segment the empty final segment is appended on every path (the result "
+               'keeps its trailing slash)', bad_t is None, loc=rp.loc, detail='%d paths' % n_t, path=bad_t.describe() if bad_t else None)
     seen = set()
     for p in paths:
         ts = tests_on(w, p)
